@@ -212,6 +212,11 @@ impl Sched {
                 g.lock_owner.remove(&addr);
             }
         }
+        if op == Op::LockHeld {
+            // the lock has really been taken (blocking or try_lock): other threads scheduled now
+            // run inside this thread's critical section
+            g.lock_owner.insert(addr, tid);
+        }
         g.pending[tid] = Some((op, addr));
         g.choose(Some(tid));
         self.cv.notify_all();
